@@ -61,7 +61,19 @@ func (e *Encoder) processMessage(packet server.LoRaMessage) {
 		packet.FrameContext.GatewayContext.Deadline = 5
 
 	default:
-		packet.Payload.MACPayload.FHDR.FCnt = packet.FrameContext.Device.FCntDn
+		// The device in the frame context is a copy that was read when the
+		// uplink arrived; frames might have been sent since then. Get the frame
+		// counter from the store. It is moved before the frame is sent so the
+		// next frame never reuses it; new devices will get 0,1,2...
+		fCntDn, err := e.context.Storage.NextFCntDn(packet.FrameContext.Device.DeviceEUI)
+		if err != nil {
+			lg.Error("Unable to update frame counter for downstream message to device with EUI %s: %v. Not sending message.",
+				packet.FrameContext.Device.DeviceEUI,
+				err)
+			return
+		}
+		packet.FrameContext.Device.FCntDn = fCntDn + 1
+		packet.Payload.MACPayload.FHDR.FCnt = fCntDn
 		buffer, err = packet.Payload.EncodeMessage(packet.FrameContext.Device.NwkSKey, packet.FrameContext.Device.AppSKey)
 		if err != nil {
 			lg.Error("Unable to encode message for device with EUI %s: %v. (DevAddr=%s)",
@@ -82,16 +94,6 @@ func (e *Encoder) processMessage(packet server.LoRaMessage) {
 			lg.Warning("Unable to update downstream message for device %s: %v", packet.FrameContext.Device.DeviceEUI, err)
 		}
 
-		// Increase the frame counter after the message is sent. New devices will get 0,1,2...
-		packet.FrameContext.Device.FCntDn++
-		if err := e.context.Storage.UpdateDeviceState(packet.FrameContext.Device); err != nil {
-			// Don't send the frame if the counter isn't stored; the next frame
-			// would reuse it.
-			lg.Error("Unable to update frame counter for downstream message to device with EUI %s: %v. Not sending message.",
-				packet.FrameContext.Device.DeviceEUI,
-				err)
-			return
-		}
 		packet.FrameContext.GatewayContext.Radio.RX1Delay = 1
 		packet.FrameContext.GatewayContext.Deadline = 1
 	}
